@@ -26,6 +26,7 @@ fn inert_guard(src: usize) -> PatchGuard {
 pub(crate) fn rec_will_execute_guard(w: WhenCalled, target: FuncPtrInternal) -> PatchGuard {
     unsafe {
         REC_CALLS += 1;
+        crate::verif_rt::CORE_CALLS += 1;
         REC_SRC = w.func_ptr.as_ptr() as usize;
         REC_TARGET = target.as_ptr() as usize;
         REC_IS_BOOL = false;
@@ -37,6 +38,7 @@ pub(crate) fn rec_will_execute_guard(w: WhenCalled, target: FuncPtrInternal) -> 
 pub(crate) fn rec_will_return_boolean_guard(w: WhenCalled, value: bool) -> PatchGuard {
     unsafe {
         REC_CALLS += 1;
+        crate::verif_rt::CORE_CALLS += 1;
         REC_SRC = w.func_ptr.as_ptr() as usize;
         REC_IS_BOOL = true;
         REC_BOOL = value;
